@@ -323,4 +323,20 @@ Example C02_demo_reflect :
   rget true n (AVal v) ["F"; "-1"]%string = Some (ROk RNone) /\ rget false n (AVal v) ["F"; "-1"]%string = Some (RPanic PIndex) /\
   rget true n (APtr None) ["F"]%string = Some (ROk RNone).
 Proof. vm_compute. repeat split; reflexivity. Qed.
+
+(* DEFINED types are inside the theorem's quantifier (it is over every node): a map keyed by `type C02Lang string`
+   is searched by the `%v` text of its keys - entry found, absent key, nil map; a defined `type C02Blob []byte` is
+   not a []byte (the type assertion goes by identity), it is indexed.  Units: GenC02.defined_units, run by c02reflect. *)
+Definition rfin (o : option rout) : option string := option_map (fun o => match o with ROk d => rfinal d | _ => "!" end) o.
+Example C02_demo_reflect_defined :
+  let n := GenC02.rootn ("T"%string, TStruct [("Titles"%string, TMap GenC02.d_lang GenC02.d_code); ("Blob"%string, GenC02.d_blob);
+                                              ("B"%string, Shapes.t_bytes)]) in
+  let v := VStruct [VMap false [(VStr "en", VInt 7%Z)]; VSlice false [VInt 65%Z] 0; VBytes false ["A"%char] 0] in
+  let z := VStruct [VMap true []; VSlice true [] 0; VBytes true [] 0] in
+  rfin (rget true n (AVal v) ["Titles"; "en"]%string) = Some "7"%string /\
+  rfin (rget true n (APtr (Some v)) ["Titles"; "de"]%string) = Some "none"%string /\
+  rfin (rget true n (AVal z) ["Titles"; "en"]%string) = Some "none"%string /\
+  rfin (rget true n (AVal v) ["Blob"; "0"]%string) = Some "65"%string /\
+  rfin (rget true n (AVal v) ["B"; "0"]%string) = Some "b41"%string.
+Proof. vm_compute. repeat split; reflexivity. Qed.
 End ReflectFamily.
